@@ -44,6 +44,7 @@ func init() {
 			{Senders: 2, PerT: 1, Stopper: 0, CrashMsg: 0, Yield: true},
 			{Senders: 1, PerT: 2, Stopper: 1, CrashMsg: -1, Yield: true},
 			{Senders: 1, PerT: 2, Stopper: 2, CrashMsg: -1, Yield: true},
+			{Senders: 1, PerT: 3, Stopper: 0, CrashMsg: 0, Yield: true}, // two messages queued behind the one that crashes
 		}
 		vt := append([]lifeRaceParams{
 			{Senders: 2, PerT: 2, Stopper: 0, CrashMsg: 1, Yield: true},
@@ -68,6 +69,24 @@ func init() {
 			Make: func() vsched.Instance { return engLifecycleRace(vq4) }})
 		Register(&Job{Name: "C04/engine/spawn-race-large", Prop: "C04", Tier: "thorough", Bound: 2, BoundT: 3, Budget: 40, BudgetT: 900,
 			Desc: "as spawn-race with 2 senders x 2 messages", Make: func() vsched.Instance { return engLifecycleRace(vt4) }})
+	}
+	// ---- C02 / C05: restart with late senders on a quiet engine
+	{
+		var vq, vt []restartLateParams
+		for _, d := range []bool{false, true} {
+			vq = append(vq, restartLateParams{Tail: 1, Late: 1, Third: true, Delay: d, Size: 2})
+			vq = append(vq, restartLateParams{Tail: 0, Late: 2, Third: true, Delay: d, Size: 1})
+			vt = append(vt, restartLateParams{Tail: 2, Late: 2, Third: true, Delay: d, Size: 1})
+			vt = append(vt, restartLateParams{Tail: 1, Late: 2, Third: false, Delay: d, Size: 2})
+		}
+		vt = append(vt, vq...)
+		for _, prop := range []string{"C02", "C05"} {
+			Register(&Job{Name: prop + "/engine/restart-late-senders", Prop: prop, Bound: 2, BoundT: 3, Budget: 40, BudgetT: 600,
+				Desc: "message 0 panics once with 0-1 messages queued behind it; the crashing Receive starts a thread sending 1-2 more messages during the restart (delay 0 and >0), the first delivery to the new incarnation starts a third sender; quiet engine (event stream detached), receivers yield inside Receive: one worker at a time, each Receive after the previous, exactly-once, order, new incarnation gets everything behind the failed message",
+				Make: func() vsched.Instance { return engRestartLate(vq) }})
+			Register(&Job{Name: prop + "/engine/restart-late-senders-large", Prop: prop, Tier: "thorough", Bound: 2, BoundT: 3, Budget: 40, BudgetT: 900,
+				Desc: "as restart-late-senders with up to 2 queued + 2 late messages", Make: func() vsched.Instance { return engRestartLate(vt) }})
+		}
 	}
 	// ---- C10
 	{
